@@ -5,6 +5,7 @@ CONSTANTS
   MaxDev = 2
   Alphabets <- AlphabetsDef
   MaxTok = 4
+  TokCap <- TokCapDef
   Recs = 3
   Damages <- DamagesDef
   Drivers = {"secrets", "configmaps"}
